@@ -264,6 +264,48 @@ def parse_responses(data, eof, methods=None):
     return res
 
 
+class ResponseStream:
+    """Incremental form of parse_responses for a connection that is read round by round: complete responses are
+    parsed once, only the unfinished tail is looked at again.  `result()` has the shape parse_responses returns."""
+
+    def __init__(self, methods=None):
+        self.buf = bytearray()
+        self.pos = 0
+        self.eof = False
+        self.methods = methods
+        self.responses = []
+        self.state = CLEAN
+        self.pending = None
+        self.error = None
+
+    def feed(self, data=b"", eof=False):
+        if data:
+            self.buf.extend(data)
+        if eof:
+            self.eof = True
+        if self.state == ERROR:
+            return
+        while self.pos < len(self.buf):
+            k = len(self.responses)
+            method = self.methods[k] if self.methods and k < len(self.methods) else None
+            try:
+                state, msg, np = parse_response_at(self.buf, self.pos, self.eof, method)
+            except HttpRefError as ex:
+                self.state, self.error, self.pending = ERROR, str(ex), None
+                return
+            if state == "ok":
+                self.responses.append(msg)
+                self.pos = np
+                continue
+            self.state, self.pending = state, msg
+            return
+        self.state, self.pending = CLEAN, None
+
+    def result(self):
+        return {"responses": self.responses, "state": self.state, "pending": self.pending,
+                "rest": bytes(self.buf[self.pos:]), "error": self.error}
+
+
 def parse_request(buf):
     """Parse one request from the front of buf (bytes/bytearray).  Returns (msg, consumed) or (None, 0) when
     incomplete.  Raises HttpRefError on malformed input."""
